@@ -10,6 +10,7 @@ import ErrModel.Report
 import ErrModel.Proto
 import ErrModel.ProtoEnc
 import ErrModel.ProtoPay
+import ErrModel.ProtoFull
 /-
   Observation streams printed by the driver (and, identically, by the harness
   from the real code).
@@ -222,6 +223,16 @@ def payBytesOfL : List Enc → List String
   | e :: r => payBytesOf e ++ payBytesOfL r
 end
 
+mutual
+/-- no visible layer has a nested EncodedError payload or a payload the byte-level model lacks -/
+def flatPayloads : Enc → Bool
+  | .leaf _ d hid cs => hid.isEmpty && (d.pay == .none || (Proto.payFields d.pay).isSome) && flatPayloadsL cs
+  | .wrap _ d _ hid c => hid.isEmpty && (d.pay == .none || (Proto.payFields d.pay).isSome) && flatPayloads c
+def flatPayloadsL : List Enc → Bool
+  | [] => true
+  | e :: r => flatPayloads e && flatPayloadsL r
+end
+
 def obsCase (e : Option Err) (refs : List (Option Err)) (trim : List Str := []) (specs : List Str := []) : String :=
   match e with
   | none => pList ["res", "(nil)", pList ["is", pList (refs.map fun r => pOB (isOpt Full none r))]]
@@ -235,6 +246,7 @@ def obsCase (e : Option Err) (refs : List (Option Err)) (trim : List Str := []) 
       pList ["detbytes", pStrs (detBytesOf (encode Full vfStub e))],
       pList ["wirebytes", pStr (Proto.serW (Proto.core (encode Full vfStub e)))],
       pList ["paybytes", pList (payBytesOf (encode Full vfStub e))],
+      pList ["fullbytes", (if flatPayloads (encode Full vfStub e) then pStr (Proto.serF (Proto.full (encode Full vfStub e))) else "(skip)")],
       pList ["h1tree", pOpt pTree h1],
       pList ["h1enc", pOpt (fun x => pEnc (encode Full vfStub x)) h1],
       pList ["h2enc", pOpt (fun x => pEnc (encode Full vfStub x)) h2],
